@@ -24,7 +24,8 @@ LEVEL_TEXT = ("For seeded random programs of every generator (incl. modules with
               "or crash midway) the digests of the IR listing and of the emitted wasm bytes are computed (1) twice in this process "
               "with fresh compiler objects, (2) again after 1-20 other compilations, (3) in fresh processes with PYTHONHASHSEED "
               "0, 1, 2 and random, with and without a history, (4) thorough: with PLY's parsetab.py present, absent and stale in a "
-              "scratch copy of the package. All digests of one (source, options) must be equal.")
+              "scratch copy of the package, (5) for a source with an import: compiled twice in this process with the library compiled and "
+              "stored again (other signature) in between, against a fresh process. All digests of one (source, options, files on disk) must be equal.")
 LEVEL_NOTE = ("Trusted: SHA-256 of the repository's InstructionPrinter text and of WriteTo bytes. When no module or no bytes are "
               "produced the outcome class (gate, exception class) takes the digest's place and must be equally stable. Python "
               "version and platform cannot be varied here.")
